@@ -147,7 +147,9 @@ Universe == <<
                               Mth("re", Ty("Re", <<Ty0("Trk")>>)), Mth("jetiter", Ty0("JetIter")),
                               Mth("myiter", Ty("MyIter", <<Ty0("Trk")>>)), Mth("noann", NoAnn),
                               Mth("calib", Ty0("CalibIter")), Mth("swap", Ty("Swap", <<Ty0("Jet"), Ty0("Trk")>>)),
-                              Mth("assoc", Ty("Assoc", <<Ty0("Jet"), Ty0("Trk")>>))>>) >>
+                              Mth("assoc", Ty("Assoc", <<Ty0("Jet"), Ty0("Trk")>>)),
+                              \* iterables spelled with the standard containers: typing.List[Trk], collections.abc.Sequence[Jet]
+                              Mth("tlist", Ty("list", <<Ty0("Trk")>>)), Mth("jseq", Ty("Sequence", <<Ty0("Jet")>>))>>) >>
 (* operators a registered collection class adds to every iterable: name -> "elem" | "int" *)
 ExtraCollectionOps == <<Mth("Second", TVar("elem")), Mth("Size2", IntT)>>
 
@@ -169,7 +171,8 @@ BaseOf(ty) == IF ty.k # "ty" \/ ty.s \notin ClassNames THEN NoAnn
                                                    ELSE [i \in 1..Len(c.params) |-> AnyT])
 
 RECURSIVE ElemType(_)      \* element type if ty is (a subclass of) Iterable[...], else noann
-ElemType(ty) == IF ty.k = "ty" /\ ty.s = "Iterable" /\ Len(ty.a) = 1 THEN ty.a[1]
+(* (the standard one-parameter containers are iterables of their parameter: typing.List[X] = list[X], Sequence[X]) *)
+ElemType(ty) == IF ty.k = "ty" /\ ty.s \in {"Iterable", "list", "Sequence"} /\ Len(ty.a) = 1 THEN ty.a[1]
                 ELSE IF BaseOf(ty).k = "noann" THEN NoAnn ELSE ElemType(BaseOf(ty))
 IsIterableT(ty) == ElemType(ty).k # "noann"
 Unwrap(ty) == IF IsIterableT(ty) THEN ElemType(ty) ELSE AnyT
